@@ -149,7 +149,7 @@ class FaultySend:
         return getattr(self._inner, name)
 
 
-def exec_case(ctx, case: Dict[str, Any]) -> None:
+def exec_case(ctx, case: Dict[str, Any], shared_list: Any = None) -> None:
     from chuk_mcp.protocol.messages.initialize.send_messages import (send_initialize,
                                                                       send_initialize_with_client_tracking)
     from chuk_mcp.protocol.messages.json_rpc_message import parse_message
@@ -159,8 +159,10 @@ def exec_case(ctx, case: Dict[str, Any]) -> None:
     SC = importlib.import_module("chuk_mcp.transports.stdio.stdio_client")
     from chuk_mcp.transports.stdio.parameters import StdioParameters
 
-    ans = case["answer"]
+    ans = dict(case["answer"])
     lst = case["supported"] if case["supported"] is not None else list(SUPPORTED_VERSIONS)
+    if shared_list is not None:
+        lst = list(shared_list)      # what the caller's list holds at the moment of this call
 
     async def main():
         pipe = Pipe()
@@ -172,6 +174,9 @@ def exec_case(ctx, case: Dict[str, Any]) -> None:
             req = await pipe.srv_recv.receive()
             obs["first"] = req
             rid = req.id
+            if ans["kind"] == "echo":
+                # a server that supports everything: it answers with whatever was proposed
+                ans.update(kind="version", v=(req.params or {}).get("protocolVersion"))
             if ans["kind"] == "silence":
                 return
             if ans["kind"] == "late":
@@ -192,6 +197,8 @@ def exec_case(ctx, case: Dict[str, Any]) -> None:
         t0 = loop.time()
         kw = dict(timeout=TIMEOUT, supported_versions=(list(case["supported"]) if case["supported"] is not None else None),
                   preferred_version=case["preferred"])
+        if shared_list is not None:
+            kw["supported_versions"] = shared_list     # the caller's own list object, not a copy
         wf = case.get("write_fault")
         write = FaultySend(pipe.write, wf["at"], wf["exc"]) if wf else pipe.write
         try:
@@ -422,7 +429,147 @@ def exec_retry(ctx, case: Dict[str, Any]) -> None:
                sample={"case": case, "outcomes": [k1, type(v1).__name__, k2, type(v2).__name__]})
 
 
+def exec_history(ctx, hist: Dict[str, Any]) -> None:
+    """Several initializations in one process given ONE list object, which the caller edits in place between them."""
+    shared: List[str] = []
+    for k, step in enumerate(hist["steps"]):
+        shared[:] = step["list"]
+        case = {"supported": list(step["list"]), "preferred": step.get("preferred"), "answer": step["answer"],
+                "tracked": bool(step.get("tracked")), "history": hist, "history_step": k}
+        ctx.count("history_handshakes")
+        exec_case(ctx, case, shared_list=shared)
+
+
+def history_cases(ctx):
+    A, B, C, D = "2025-06-18", "2025-03-26", "2024-11-05", "2026-01-01"
+    echo = {"kind": "echo"}
+    out = []
+    for tracked in (False, True):
+        # the first entry is withdrawn / replaced / preceded by a new one; the preferred version is withdrawn / added
+        out.append({"steps": [{"list": [A, B], "answer": echo, "tracked": tracked}, {"list": [B], "answer": echo, "tracked": tracked}]})
+        out.append({"steps": [{"list": [B, C], "answer": echo, "tracked": tracked}, {"list": [D, B, C], "answer": echo, "tracked": tracked},
+                              {"list": [C], "answer": {"kind": "version", "v": B}, "tracked": tracked}]})
+        out.append({"steps": [{"list": [A, B], "preferred": B, "answer": echo, "tracked": tracked},
+                              {"list": [A], "preferred": B, "answer": echo, "tracked": tracked},
+                              {"list": [A, C], "preferred": C, "answer": echo, "tracked": tracked}]})
+        out.append({"steps": [{"list": [A], "preferred": C, "answer": echo, "tracked": tracked},
+                              {"list": [A, C], "preferred": C, "answer": echo, "tracked": tracked},
+                              {"list": [C, A], "preferred": None, "answer": {"kind": "version", "v": A}, "tracked": tracked}]})
+    rng = ctx.sub_rng("c03hist")
+    pool = [A, B, C, D, "2023-01-01"]
+    for _ in range(20 if ctx.tier == "quick" else 400):
+        steps = []
+        for _k in range(rng.randint(2, 4)):
+            lst = rng.sample(pool, rng.randint(1, 3))
+            steps.append({"list": lst, "preferred": rng.choice([None, None, rng.choice(pool)]),
+                          "answer": rng.choice([echo, echo, {"kind": "version", "v": rng.choice(pool)}]), "tracked": rng.random() < 0.5})
+        out.append({"steps": steps})
+    return out
+
+
+def entry_point_tier(ctx):
+    """Every callable of the library that takes `supported_versions` (found by signature, not from a list) against a
+    server that echoes whatever is proposed: the proposal - and so the version settled on - must come from the caller's
+    list, whichever entry point was used."""
+    import importlib
+    import inspect
+    import json
+    import pkgutil
+    import chuk_mcp
+    from chuk_mcp.transports.stdio.parameters import StdioParameters
+    from vf.recorders import OpenProcessPatch, ScriptedProcess
+    found = {}
+    for mi in pkgutil.walk_packages(chuk_mcp.__path__, "chuk_mcp."):
+        if mi.name.endswith("__main__"):
+            continue
+        try:
+            m = importlib.import_module(mi.name)
+        except Exception:  # noqa
+            continue
+        for n, f in vars(m).items():
+            g = getattr(f, "__wrapped__", f)
+            if callable(f) and getattr(g, "__module__", None) == m.__name__ and not inspect.isclass(f):
+                try:
+                    sig = inspect.signature(g)
+                except (TypeError, ValueError):
+                    continue
+                if "supported_versions" in sig.parameters and "server" in "".join(sig.parameters) :
+                    found[f"{m.__name__}.{n}"] = (f, sig)
+    ctx.extra["version_taking_entry_points"] = sorted(found)
+    for name, (fn, sig) in sorted(found.items()):
+        for lst, pref in ((["2024-11-05"], None), (["2025-03-26", "2024-11-05"], None), (["2025-03-26", "2024-11-05"], "2024-11-05"),
+                          (["2026-01-01", "2025-06-18"], "2025-06-18")):
+            case = {"entry_point": name, "supported": lst, "preferred": pref}
+            want = pref if pref in lst else lst[0]
+            proposed: List[Any] = []
+
+            def factory(command, **kw):
+                p = ScriptedProcess([], hold_open=True)
+                orig = p.stdin.send
+
+                async def send(data):
+                    await orig(data)
+                    for line in data.split(b"\n"):
+                        try:
+                            req = json.loads(line)
+                        except Exception:  # noqa
+                            continue
+                        if isinstance(req, dict) and req.get("method") == "initialize":
+                            v = (req.get("params") or {}).get("protocolVersion")
+                            proposed.append(v)
+                            p.feed((json.dumps({"jsonrpc": "2.0", "id": req["id"], "result": {
+                                "protocolVersion": v, "capabilities": {}, "serverInfo": {"name": "echo", "version": "1"}}}) + "\n").encode())
+                p.stdin.send = send
+                return p
+
+            async def main():
+                out: Dict[str, Any] = {}
+                first = next(iter(sig.parameters))
+                kw = {first: StdioParameters(command="scripted"), "supported_versions": list(lst), "preferred_version": pref}
+                if "timeout" in sig.parameters:
+                    kw["timeout"] = 2.0
+                try:
+                    with OpenProcessPatch(factory):
+                        obj = fn(**kw)
+                        if hasattr(obj, "__aenter__"):
+                            async with obj as got:
+                                init = got[2] if isinstance(got, tuple) and len(got) > 2 else None
+                                out["settled"] = getattr(init, "protocolVersion", None)
+                        else:
+                            # the old API: an async generator that yields (read, write, init result) once
+                            try:
+                                async for got in obj:
+                                    init = got[2] if isinstance(got, tuple) and len(got) > 2 else None
+                                    out["settled"] = getattr(init, "protocolVersion", None)
+                            finally:
+                                await obj.aclose()
+                except BaseException as e:  # noqa
+                    if isinstance(e, (KeyboardInterrupt, SystemExit)):
+                        raise
+                    out["error"] = e
+                return out
+            try:
+                out, _ = run_virtual(main, max_iterations=200_000)
+            except HangDetected as e:
+                ctx.violation("hang", f"{name}: {e}", case)
+                continue
+            ctx.count("entry_point_handshakes")
+            if proposed != [want]:
+                ctx.violation("wrong_version_proposed", f"{name}(supported_versions={lst}, preferred_version={pref!r}) proposed "
+                              f"{proposed!r}, expected [{want!r}]", case)
+            if out.get("settled") is not None and out["settled"] not in lst:
+                ctx.violation("settled_on_unoffered_version", f"{name}(supported_versions={lst}) settled on {out['settled']!r}", case)
+            ctx.record(case, shape=[proposed, out.get("settled"), type(out.get("error")).__name__], nontrivial=True,
+                       cls="entry_point:" + name.rsplit(".", 1)[-1], sample={"case": case, "proposed": proposed, "settled": out.get("settled")})
+    ctx.require_reached("entry_point_handshakes")
+
+
 def run(ctx):
+    if ctx.shard[0] == 0:
+        entry_point_tier(ctx)
+    for hist in history_cases(ctx):
+        if ctx.mine():
+            exec_history(ctx, hist)
     for lst in (["2025-06-18", "2025-03-26"], ["2025-03-26"], ["2024-11-05", "2025-06-18", "2099-01-01"]):
         for second in ({"kind": "version", "v": "1999-01-01"}, {"kind": "version", "v": lst[-1]}, {"kind": "error", "code": -32600, "msg": "no"},
                        {"kind": "error", "code": -32603, "msg": "boom"}, {"kind": "silence"}, {"kind": "malformed", "what": "missing_version"}):
@@ -440,6 +587,9 @@ def run(ctx):
 
 
 def replay(ctx, case):
+    if case.get("history"):
+        exec_history(ctx, case["history"])
+        return
     if case.get("retry"):
         exec_retry(ctx, case)
         return
